@@ -71,6 +71,13 @@ def build_module(rng, g, n_roots):
     import copy as _copy
     fns, _ = g.program()
     helpers = [f for f in fns[:-1]]
+    # a forwarding chain: fwd (no spec lookup of its own) -> leaf (reads the spec); every root calls fwd
+    leaf = {"name": "leafq", "tweezer": False, "params": [("a0", "int")], "nested": {}, "kinds": ["int"], "returns": "int",
+            "body": [("eff", "local_rz", [("look", "floatC", "fh"), ("look", "trap", "B")]),
+                     ("ret", ("prim", "add", [("look", "intC", "n2"), ("var", "a0")]))]}
+    fwd = {"name": "fwdq", "tweezer": False, "params": [("a0", "int")], "nested": {}, "kinds": ["int"], "returns": "int",
+           "body": [("assign", "rq", ("call", "leafq", [("var", "a0")])), ("ret", ("var", "rq"))]}
+    helpers = helpers + [leaf, fwd]
     shared = [f for f in helpers if not f["tweezer"] and all(k in ("int", "grid") for k in f.get("kinds", []))]
     g2 = L.MoveGen(rng, dict(g.feat, devcalls=False, parallel=False, devfn_param=0.0, dynamic_call=0.0))
     roots = []
